@@ -137,6 +137,17 @@ class SymEnv:
     def lt_strict(self, a, b):
         return Cond(SB(lift(a) < lift(b)))
 
+    def same(self, a, b, tol=0):
+        """Relational equality: decided by term identity when the two runs built the same term (no solver call), else by eq"""
+        if self._nan(a) and self._nan(b):
+            return Cond(SB(z3.BoolVal(True)))  # not yet computed in both runs
+        if self._nan(a, b):
+            return Cond(SB(z3.BoolVal(False)))
+        ea, eb = lift(a), lift(b)
+        if ea.eq(eb):
+            return Cond(SB(z3.BoolVal(True)))
+        return self.eq(a, b, tol)
+
     def true(self, c):
         return Cond(c if isinstance(c, SB) else SB(_b(c)))
 
@@ -285,6 +296,12 @@ class ConcEnv:
 
     def lt_strict(self, a, b):
         return Cond(self._f(a) < self._f(b))
+
+    def same(self, a, b, tol=0):
+        fa, fb = self._f(a), self._f(b)
+        if math.isnan(fa) and math.isnan(fb):
+            return Cond(True)
+        return self.eq(a, b, tol)
 
     def true(self, c):
         return Cond(bool(c))
